@@ -31,6 +31,12 @@ def compare(rec, b, mjm, mjd, m, d, cmp, opts):
       mujoco.mj_applyFT(mjm, mjd, mjd.xfrc_applied[bid, :3], mjd.xfrc_applied[bid, 3:], mjd.xipos[bid], bid, tmp)
   expected = expected + tmp
   fs = max([1.0] + [float(np.abs(x).max()) for x in (mjd.qfrc_constraint, mjd.qfrc_bias, mjd.qfrc_passive) if x.size])
+  if mjd.nefc:
+    # qfrc_constraint is a sum of row forces that may cancel (a deeply embedded box on a hinge: 5e6 N of contact force, 0.1 N m net):
+    # float32 resolves it relative to the terms, not to the sum
+    from .. import efc
+
+    fs = max(fs, float((np.abs(efc.dense_J(mjm, mjd)).T @ np.abs(np.array(mjd.efc_force))).max()) * 1e-3)
   if not discrete:
     mjw.inverse(m, d)
     for w in range(d.nworld):
